@@ -419,7 +419,7 @@ Qed.
 
 Definition shaped (rcv : text) (t : triple) : Prop :=
   exists p0 p1 p2 p3, sset p0 /\ sset p1 /\ sset p2 /\ sset p3 /\
-    rcv = p0 ++ print_nat (fst (fst t)) ++ [COMMA] ++ p1 ++ print_nat (snd (fst t)) ++ [COMMA] ++ p2 ++ snd t ++ p3.
+    rcv = p0 ++ print_nat (fst (fst t)) ++ COMMA :: p1 ++ print_nat (snd (fst t)) ++ COMMA :: p2 ++ snd t ++ p3.
 
 Lemma not_in_app (c : Z) a b : ~ In c a -> ~ In c b -> ~ In c (a ++ b).
 Proof. intros Ha Hb H. apply in_app_or in H. tauto. Qed.
@@ -430,10 +430,9 @@ Lemma shaped_fields rcv r c v : shaped rcv (r, c, v) -> tokz v ->
 Proof.
   intros (p0 & p1 & p2 & p3 & S0 & S1 & S2 & S3 & E) Tv. simpl in E. subst rcv.
   pose proof (print_nat_tokz r) as Tr. pose proof (print_nat_tokz c) as Tc.
-  replace (p0 ++ print_nat r ++ [COMMA] ++ p1 ++ print_nat c ++ [COMMA] ++ p2 ++ v ++ p3)
-    with ((p0 ++ print_nat r) ++ COMMA :: ((p1 ++ print_nat c) ++ COMMA :: (p2 ++ v ++ p3)))
-    by (repeat rewrite <- app_assoc; reflexivity).
+  rewrite (app_assoc p0 (print_nat r)).
   rewrite split_char_app by (apply not_in_app; [apply sset_no_comma; exact S0|apply Tr]).
+  rewrite (app_assoc p1 (print_nat c)).
   rewrite split_char_app by (apply not_in_app; [apply sset_no_comma; exact S1|apply Tc]).
   rewrite split_char_none
     by (apply not_in_app; [apply sset_no_comma; exact S2|apply not_in_app; [apply Tv|apply sset_no_comma; exact S3]]).
@@ -449,22 +448,23 @@ Lemma shaped_first rcv r c v : shaped rcv (r, c, v) -> tokz v ->
 Proof.
   intros (p0 & p1 & p2 & p3 & S0 & S1 & S2 & S3 & E) Tv. simpl in E. subst rcv.
   pose proof (print_nat_tokz r) as Tr. pose proof (print_nat_tokz c) as Tc.
-  set (M := print_nat r ++ [COMMA] ++ p1 ++ print_nat c ++ [COMMA] ++ p2 ++ v).
-  replace (p0 ++ print_nat r ++ [COMMA] ++ p1 ++ print_nat c ++ [COMMA] ++ p2 ++ v ++ p3) with (p0 ++ M ++ p3)
-    by (unfold M; repeat rewrite <- app_assoc; reflexivity).
+  set (M := print_nat r ++ COMMA :: p1 ++ print_nat c ++ COMMA :: p2 ++ v).
+  assert (p0 ++ print_nat r ++ COMMA :: p1 ++ print_nat c ++ COMMA :: p2 ++ v ++ p3 = p0 ++ M ++ p3) as EM.
+  { unfold M. repeat (rewrite <- app_assoc; cbn [app]). reflexivity. }
+  rewrite EM. clear EM.
   unfold strip_f. rewrite strip_mid; try assumption.
   - exists (p1 ++ print_nat c), (p2 ++ v). unfold M.
-    change (print_nat r ++ [COMMA] ++ p1 ++ print_nat c ++ [COMMA] ++ p2 ++ v)
-      with (print_nat r ++ COMMA :: ((p1 ++ print_nat c ++ [COMMA] ++ p2 ++ v))).
     rewrite split_char_app by apply Tr.
-    replace (p1 ++ print_nat c ++ [COMMA] ++ p2 ++ v) with ((p1 ++ print_nat c) ++ COMMA :: (p2 ++ v))
-      by (repeat rewrite <- app_assoc; reflexivity).
+    rewrite (app_assoc p1 (print_nat c)).
     rewrite split_char_app by (apply not_in_app; [apply sset_no_comma; exact S1|apply Tc]).
     rewrite split_char_none by (apply not_in_app; [apply sset_no_comma; exact S2|apply Tv]).
     reflexivity.
   - unfold M. destruct (print_nat r) eqn:E; [exfalso; apply (print_nat_nonempty r); exact E|discriminate].
   - unfold M. rewrite hd_app_nonempty by apply Tr. apply tokz_hd. exact Tr.
-  - unfold M. rewrite !app_assoc. rewrite last_app_nonempty by apply Tv. apply tokz_last. exact Tv.
+  - unfold M.
+    change (print_nat r ++ COMMA :: p1 ++ print_nat c ++ COMMA :: p2 ++ v)
+      with (print_nat r ++ (COMMA :: p1) ++ print_nat c ++ (COMMA :: p2) ++ v).
+    rewrite !app_assoc. rewrite last_app_nonempty by apply Tv. apply tokz_last. exact Tv.
 Qed.
 
 (* the compact row the slicers emit *)
@@ -501,3 +501,147 @@ Proof.
     cbn [rbind]. rewrite (IH T'). cbn [rbind map]. reflexivity.
   - apply IH. exact T'.
 Qed.
+
+(* ------------------------------------------------------------------ splitting the printed array on '],' *)
+(* the body of a printed row, between its brackets *)
+Definition row_body (w : ws_choice) (t : triple) : text :=
+  w_row_open w ++ print_nat (fst (fst t)) ++ COMMA :: w_item w ++ print_nat (snd (fst t)) ++ COMMA :: w_item w
+  ++ snd t ++ w_row_close w.
+
+Lemma print_row_body w t : print_row w t = LBRACK :: row_body w t ++ [RBRACK].
+Proof.
+  destruct t as [[r c] v]. unfold print_row, row_body. cbn [fst snd app].
+  f_equal. repeat (rewrite <- app_assoc; cbn [app]). reflexivity.
+Qed.
+
+Fixpoint pieces (w : ws_choice) (pre : text) (l : list triple) : list text :=
+  match l with
+  | [] => []
+  | [t] => [pre ++ LBRACK :: row_body w t ++ RBRACK :: w_close w]
+  | t :: r => (pre ++ LBRACK :: row_body w t) :: pieces w (w_rows w) r
+  end.
+
+Definition no_rb (s : text) : Prop := ~ In RBRACK s.
+Lemma no_rb_app a b : no_rb a -> no_rb b -> no_rb (a ++ b).
+Proof. apply not_in_app. Qed.
+Lemma no_rb_cons c s : c <> RBRACK -> no_rb s -> no_rb (c :: s).
+Proof. intros H1 H2 [H|H]; [congruence|contradiction]. Qed.
+Lemma blank_no_rb w : blank w -> no_rb w.
+Proof.
+  intros F H. unfold blank in F. rewrite Forall_forall in F. specialize (F _ H). discriminate.
+Qed.
+Lemma blank_no_comma w : blank w -> ~ In COMMA w.
+Proof.
+  intros F H. unfold blank in F. rewrite Forall_forall in F. specialize (F _ H). discriminate.
+Qed.
+Lemma print_nat_no_rb n : no_rb (print_nat n).
+Proof.
+  intros H. pose proof (print_nat_digits n) as D. rewrite Forall_forall in D. apply D, digit_chars in H. tauto.
+Qed.
+Lemma tok_no_rb v : tok_ok v -> no_rb v.
+Proof.
+  intros [_ F] H. rewrite Forall_forall in F. specialize (F _ H). discriminate.
+Qed.
+
+Lemma row_body_no_rb w t : ws_ok w -> tok_ok (snd t) -> no_rb (row_body w t).
+Proof.
+  intros (B1 & B2 & B3 & B4 & B5 & B6) T. unfold row_body.
+  repeat first [apply no_rb_app | apply no_rb_cons; [discriminate|] | apply blank_no_rb; assumption
+               | apply print_nat_no_rb | apply tok_no_rb; assumption ].
+Qed.
+
+Lemma split2_rows w : ws_ok w -> forall l pre, l <> [] -> triples_ok l -> blank pre ->
+  split2 RBRACK COMMA (pre ++ print_rows w l ++ w_close w) = pieces w pre l.
+Proof.
+  intros W. pose proof W as (B1 & B2 & B3 & B4 & B5 & B6).
+  induction l as [|t r IH]; intros pre Hne T Bp; [congruence|].
+  inversion T as [|? ? Tt Tr]; subst.
+  assert (Hu : no_rb (pre ++ LBRACK :: row_body w t))
+    by (apply no_rb_app; [apply blank_no_rb; exact Bp|apply no_rb_cons; [discriminate|apply row_body_no_rb; assumption]]).
+  destruct r as [|t2 r].
+  - cbn [print_rows pieces]. rewrite print_row_body.
+    replace (pre ++ (LBRACK :: row_body w t ++ [RBRACK]) ++ w_close w)
+      with ((pre ++ LBRACK :: row_body w t) ++ RBRACK :: w_close w)
+      by (repeat (rewrite <- app_assoc; cbn [app]); reflexivity).
+    rewrite split2_last; [|discriminate|exact Hu|apply blank_no_comma; exact B6].
+    repeat (rewrite <- app_assoc; cbn [app]). reflexivity.
+  - change (print_rows w (t :: t2 :: r)) with (print_row w t ++ [COMMA] ++ w_rows w ++ print_rows w (t2 :: r)).
+    change (pieces w pre (t :: t2 :: r)) with ((pre ++ LBRACK :: row_body w t) :: pieces w (w_rows w) (t2 :: r)).
+    rewrite print_row_body.
+    replace (pre ++ ((LBRACK :: row_body w t ++ [RBRACK]) ++ [COMMA] ++ w_rows w ++ print_rows w (t2 :: r)) ++ w_close w)
+      with ((pre ++ LBRACK :: row_body w t) ++ RBRACK :: COMMA :: (w_rows w ++ print_rows w (t2 :: r) ++ w_close w))
+      by (repeat (rewrite <- app_assoc; cbn [app]); reflexivity).
+    rewrite split2_app by exact Hu.
+    rewrite IH; [reflexivity|discriminate|exact Tr|exact B5].
+Qed.
+
+Lemma sset_cons c w : strip_set c = true -> sset w -> sset (c :: w).
+Proof. intros. constructor; assumption. Qed.
+
+Lemma pieces_shaped w : ws_ok w -> forall l pre, blank pre -> Forall2 shaped (pieces w pre l) l.
+Proof.
+  intros (B1 & B2 & B3 & B4 & B5 & B6). induction l as [|t r IH]; intros pre Bp; [constructor|].
+  destruct r as [|t2 r].
+  - cbn [pieces]. constructor; [|constructor].
+    exists (pre ++ LBRACK :: w_row_open w), (w_item w), (w_item w), (w_row_close w ++ RBRACK :: w_close w).
+    repeat split; try (apply blank_sset; assumption).
+    + apply sset_app; [apply blank_sset; exact Bp|apply sset_cons; [reflexivity|apply blank_sset; exact B2]].
+    + apply sset_app; [apply blank_sset; exact B4|apply sset_cons; [reflexivity|apply blank_sset; exact B6]].
+    + unfold row_body. repeat (rewrite <- app_assoc; cbn [app]). reflexivity.
+  - change (pieces w pre (t :: t2 :: r)) with ((pre ++ LBRACK :: row_body w t) :: pieces w (w_rows w) (t2 :: r)).
+    constructor; [|apply IH; exact B5].
+    exists (pre ++ LBRACK :: w_row_open w), (w_item w), (w_item w), (w_row_close w).
+    repeat split; try (apply blank_sset; assumption).
+    + apply sset_app; [apply blank_sset; exact Bp|apply sset_cons; [reflexivity|apply blank_sset; exact B2]].
+    + unfold row_body. repeat (rewrite <- app_assoc; cbn [app]). reflexivity.
+Qed.
+
+Lemma triples_ok_tokz l : triples_ok l -> triples_tokz l.
+Proof. apply Forall_impl. intros t. apply tok_ok_tokz. Qed.
+
+(* what the slicers return on every printing of a non-empty entry list *)
+Lemma slice_obs_text w l keep : ws_ok w -> triples_ok l -> l <> [] ->
+  slice_obs (print_inner w l) keep = ROk (wrap_rows (map crow (subset_obs keep l))).
+Proof.
+  intros W T Hne. pose proof W as (B1 & _). unfold slice_obs, print_inner.
+  destruct l as [|t r] eqn:El; [congruence|]. rewrite <- El in *.
+  rewrite (split2_rows w W l (w_open w) Hne T B1).
+  rewrite (obs_rows_shaped keep _ l (pieces_shaped w W l (w_open w) B1) (triples_ok_tokz l T)).
+  reflexivity.
+Qed.
+
+Lemma slice_samp_text w l keep : ws_ok w -> triples_ok l -> l <> [] ->
+  slice_samp (print_inner w l) keep = ROk (wrap_rows (map crow (subset_samp keep l))).
+Proof.
+  intros W T Hne. pose proof W as (B1 & _). unfold slice_samp, print_inner.
+  destruct l as [|t r] eqn:El; [congruence|]. rewrite <- El in *.
+  rewrite (split2_rows w W l (w_open w) Hne T B1).
+  rewrite (samp_rows_shaped keep _ l (pieces_shaped w W l (w_open w) B1) (triples_ok_tokz l T)).
+  reflexivity.
+Qed.
+
+(* the emitted text is the compact printing of the remapped entries *)
+Lemma compact_rows l : l <> [] -> LBRACK :: join SEP_ROWS (map crow l) ++ [RBRACK] = print_rows ws_compact l.
+Proof.
+  induction l as [|t r IH]; intros Hne; [congruence|].
+  destruct r as [|t2 r].
+  - cbn [map join print_rows]. destruct t as [[a b] v]. unfold print_row, crow. cbn [ws_compact w_row_open w_item w_row_close fst snd app].
+    f_equal. repeat (rewrite <- app_assoc; cbn [app]). reflexivity.
+  - change (print_rows ws_compact (t :: t2 :: r))
+      with (print_row ws_compact t ++ [COMMA] ++ w_rows ws_compact ++ print_rows ws_compact (t2 :: r)).
+    rewrite <- IH by discriminate.
+    change (map crow (t :: t2 :: r)) with (crow t :: map crow (t2 :: r)).
+    change (join SEP_ROWS (crow t :: map crow (t2 :: r))) with (crow t ++ SEP_ROWS ++ join SEP_ROWS (map crow (t2 :: r))).
+    destruct t as [[a b] v]. unfold print_row, crow, SEP_ROWS. cbn [ws_compact w_row_open w_item w_row_close w_rows fst snd app].
+    f_equal. repeat (rewrite <- app_assoc; cbn [app]). reflexivity.
+Qed.
+
+Lemma wrap_rows_compact l : l <> [] -> wrap_rows (map crow l) = print_ws ws_compact l.
+Proof.
+  intros Hne. unfold wrap_rows, print_ws, print_inner. destruct l as [|t r] eqn:E; [congruence|]. rewrite <- E in *.
+  rewrite <- (compact_rows l Hne). cbn [ws_compact w_open w_close app].
+  rewrite app_nil_r. f_equal. f_equal. rewrite <- app_assoc. reflexivity.
+Qed.
+
+Lemma wrap_rows_nil : wrap_rows [] = [LBRACK; LBRACK; RBRACK; RBRACK].
+Proof. reflexivity. Qed.
